@@ -663,14 +663,104 @@ def check_c11(run):
         rule="HashMap histories with a second map: clone(), clone_from into targets in every state (unallocated, smaller, equal, larger bucket count, with tombstones), swap, ==; the clone must hold equal elements with fresh serial numbers (no object shared), later operations on one map must leave the other's dump unchanged (checked after every step), clone_from must drop every old target element exactly once and free the old block iff the bucket counts differ (events compared with the extracted model), == must equal the mathematical comparison of the abstract contents and be symmetric; differently seeded hashers via a salted BuildHasher",
         nontrivial_keys=("clone_family_same_buckets", "clone_family_target_smaller", "clone_family_target_larger"))
 
+def gen_capacity_scripts(tier, seed, variant):
+    rng = random.Random(seed)
+    n = 40 if tier == "quick" else 140
+    out = []
+    for i in range(n):
+        if i % 3 == 2:
+            out.append(gen_table.make_script(rng, f"k{seed}_{i}", kind=rng.choice(["table-drop", "table-plain", "table-1", "table-2", "table-200", "table-zst"])))
+        else:
+            out.append(gen_map.make_script(rng, f"k{seed}_{i}"))
+    return "".join(out)
+
+def check_c08(run):
+    return script_property(
+        run, gen_capacity_scripts,
+        relevant=lambda f: f.kind in ("K-FAIL", "CRASH"),
+        rule="HashMap / HashTable histories (element sizes 0, 1, 2, 24, 32, 200) with with_capacity / reserve / try_reserve / shrink_to / shrink_to_fit at n, m in {0,1,2,3,7,8,14,15,28,29,56,57, random up to 4x the size} between insertions and removals; judged on the implementation's own dumps after every step: capacity() >= len(); after with_capacity(n) / reserve(n) / successful try_reserve(n) at least n more elements fit; an insertion while capacity()-len() > 0 performs no allocator call and keeps the bucket count; with_capacity(0) allocates nothing; clear and drain keep the allocation; allocation_size() equals the size of the live block; shrink_to never enlarges the allocation, keeps capacity >= max(len, min(m, previous capacity)), frees everything for an empty collection and m = 0, and otherwise leaves at most the bucket count of a fresh with_capacity(max(len, m)) (computed with the extracted Gen.capacity_to_buckets)")
+
+def gen_tryreserve_scripts(tier, seed, variant):
+    rng = random.Random(seed)
+    n = 40 if tier == "quick" else 140
+    out = []
+    for i in range(n):
+        if i % 4 == 3:
+            blk = gen_table.make_script(rng, f"r{seed}_{i}", kind=rng.choice(["table-zst", "table-1", "table-200", "table-drop"]))
+            lines = blk.rstrip("\n").split("\n")
+            res = []
+            for l in lines:
+                res.append(l)
+                if l.startswith("t") and rng.random() < 0.15:
+                    if rng.random() < 0.5:
+                        res.append(f"arm refuse_nth 0")
+                    res.append(f"ttryreserve {rng.choice([0, 1, 7, 28, 57, 1000, (1 << 64) - 1, (1 << 63) - 1, (1 << 63), (1 << 61), (1 << 60) + 1, ((1 << 64) - 1) // 200, ((1 << 64) - 1) // 200 + 1])}")
+            out.append("\n".join(res) + "\n")
+        else:
+            out.append(gen_map.make_script(rng, f"r{seed}_{i}", faults=0.3, arms=["refuse_nth"]))
+    return "".join(out)
+
+def check_c12(run):
+    return script_property(
+        run, gen_tryreserve_scripts,
+        relevant=lambda f: f.kind in ("R-FAIL", "CRASH") or (f.kind == "H-FAIL" and "invalid layout" in f.text) or (f.kind == "A-FAIL" and "library panicked" in f.text and op_in(f, ("tryreserve", "ttryreserve"))),
+        rule="HashMap / HashTable histories (element sizes 0, 1, 32, 200) with try_reserve(additional) at additional in {small, around 7/8*2^k, 2^60+1, 2^61, 2^63-1, 2^63, usize::MAX, usize::MAX/size_of::<T>() +-1} with and without the allocator refusing the request; judged on the implementation: try_reserve always returns (no panic, no abort); on an error the dumped table and its block are identical to the pre-state and the operation performed no allocation, release or drop; AllocError carries exactly the refused layout; CapacityOverflow only without a refused request; every request the ledger allocator sees has a valid layout (non-zero size, power-of-two alignment, size <= isize::MAX - (align-1)); steps with representable sizes are also compared with the extracted model",
+        nontrivial_keys=("huge_capacity_request",))
+
+def gen_churn_scripts(tier, seed, variant):
+    rng = random.Random(seed)
+    n = 48 if tier == "quick" else 120
+    ln = None if tier == "quick" else 3000
+    return "".join(gen_map.make_churn_script(rng, f"g{seed}_{i}", table=(i % 3 == 2), length=ln) for i in range(n))
+
+def check_c13(run):
+    return script_property(
+        run, gen_churn_scripts,
+        relevant=lambda f: f.kind in ("G-FAIL", "CRASH"),
+        rule="insert/remove interleavings (fifo / lifo / random / sawtooth) of 300-3000 steps whose live size never exceeds n in {1..50}, through HashMap::insert / entry / remove and HashTable::insert_unique / find_entry+remove, under all 8 hash-plan classes (well mixed through all-colliding), with a lookup of an absent key every 50 steps; after every step the dumped bucket count must satisfy the proved invariant (at most 16 buckets, or a table of half the size could not hold 2(n+1) elements) for the largest live size seen so far; a harness timeout (non-terminating operation) is a finding")
+
+def gen_entry_scripts(tier, seed, variant):
+    """C14: entry-style operations at full load, on tombstone-saturated and unallocated tables"""
+    rng = random.Random(seed)
+    n = 48 if tier == "quick" else 160
+    out = []
+    for i in range(n):
+        blk = gen_map.make_script(rng, f"e{seed}_{i}")
+        lines = blk.rstrip("\n").split("\n")
+        res = []
+        stamp = 100000
+        nk = 20
+        m = re.search(r"nkeys=(\d+)", lines[0])
+        if m:
+            nk = int(m.group(1))
+        for l in lines:
+            res.append(l)
+            if not (l.startswith("===") or l.startswith("kind") or l.startswith("hash")) and rng.random() < 0.35 and not l.startswith("extractif"):
+                stamp += 1
+                k = rng.randrange(nk + 3)
+                res.append(rng.choice([f"entry_or_insert {k} {stamp} {rng.randrange(500)}", f"entry_insert {k} {stamp} {rng.randrange(500)}",
+                                       f"entry_remove {k} {stamp}", f"entry_and_modify {k} {stamp} {rng.randrange(4)} {rng.randrange(500)}",
+                                       f"entry_drop {k} {stamp}", f"tryinsert {k} {stamp} {rng.randrange(500)}"]))
+        out.append("\n".join(res) + "\n")
+    return "".join(out) + gen_set_scripts(tier, seed + 7, variant)
+
+def check_c14(run):
+    ops = ("entry_", "tryinsert", "sgetorinsert", "sreplace", "sentry_insert", "xor_assign")
+    return script_property(
+        run, gen_entry_scripts,
+        relevant=lambda f: f.kind == "CRASH" or (f.kind in ("A-FAIL", "B-FAIL") and op_in(f, ops)),
+        rule="HashMap histories in which a third of the steps is followed by an entry-style operation on a present or absent key: entry(k).or_insert / insert / and_modify().or_insert / remove_entry / dropped unused, try_insert; plus HashSet histories with get_or_insert, get_or_insert_with, replace, entry(v).insert and `^=`; the states include growth_left = 0 (capacity() = len()), tombstone-laden tables and the unallocated singleton (counted in hard_branch_counts); every step is compared bit for bit with the extracted model and judged by the reference map, whose entry semantics are the get / insert / remove expansions. raw_entry_mut and rustc_entry are not exercised by the harness (listed as not modelled in DESIGN.md)",
+        nontrivial_keys=("pre_growth_left_0", "tombstones_present", "small_table"))
+
 PROPS = {
     "C17": check_c17,
+    "C01": check_c01, "C14": check_c14,
+    "C08": check_c08, "C12": check_c12, "C13": check_c13,
     "C02": check_c02, "C03": check_c03, "C04": check_c04, "C05": check_c05, "C06": check_c06, "C10": check_c10, "C11": check_c11,
     "C16": check_c16,
     "C09": check_c09,
     "C20": check_c20,
     "C19": check_c19,
     "C07": check_c07,
-    "C01": check_c01,
     "C18": check_c18,
 }
